@@ -469,6 +469,12 @@ def standard_check(res, vh_cmd, n_cases, prop_files, model_files, theorem_note, 
                     m = re.match(r"cases_(\d+)\.v", f)
                     base = int(m.group(1)) * per if m else 0
                     mism += [base + i for i in idx]
+            # instances of a known finding are announced (once) and take no part in what follows: they neither use
+            # up the report budget nor hide another violation, or a disagreement with the model, in the same case
+            for v in viol:
+                if res.match_known(v["problem"]) is not None:
+                    res.violation("oracle", v["problem"], {})
+            viol = [v for v in viol if res.match_known(v["problem"]) is None]
             oracle_cases = sorted({v["case"] for v in viol})
             n_oracle += len(oracle_cases)
             n_mism += len(mism)
